@@ -237,13 +237,16 @@ def run(tier: str, seed: int) -> int:
                 if aname in SPECIAL_VALUES:
                     vals = np.asarray(SPECIAL_VALUES[aname][:B])
 
-                def make_p(x, name=name, D=D, N=N, mk=mk, aname=aname):
+                # the ETDRK order rotates through 1..4 over the swept arguments (every order builds its own coefficient arrays under the trace)
+                ordr = (2, 4, 1, 3)[ai % 4] if registry.has_order(cls) else None
+
+                def make_p(x, name=name, D=D, N=N, mk=mk, aname=aname, ordr=ordr):
                     if aname == "dt":
-                        return registry.make(name, D, N, L=2.0, dt=x)
-                    return registry.make(name, D, N, L=2.0, dt=0.02, **mk(x))
+                        return registry.make(name, D, N, L=2.0, dt=x, order=ordr)
+                    return registry.make(name, D, N, L=2.0, dt=0.02, order=ordr, **mk(x))
                 U = rng.standard_normal((B, C) + (N,) * D) * 0.3
-                key = {"kind": "parameter-sweep", "cls": name, "symbol": aname, "what": f"loop={prog['loop']},vm={prog['vm']}"}
-                run_.case(("sweep", name, aname, repr(sorted(prog.items()))))
+                key = {"kind": "parameter-sweep", "cls": name, "symbol": aname, "what": f"loop={prog['loop']},vm={prog['vm']}", "order": ordr}
+                run_.case(("sweep", name, aname, ordr, repr(sorted(prog.items()))))
                 try:
                     ref = {}
                     for b in range(1, B + 1):
@@ -324,8 +327,10 @@ def run(tier: str, seed: int) -> int:
         arg = [k for k, mk, base in sweep_args(cls)][:1]
         sw = sweep_args(cls)[0] if sweep_args(cls) else None
 
-        def make_h(x, name=name, D=D, N=N, sw=sw):
-            return registry.make(name, D, N, L=2.0, dt=0.02, **(sw[1](x) if sw else {}))
+        hord = (2, 4, 3, 1)[hi % 4] if registry.has_order(cls) else None
+
+        def make_h(x, name=name, D=D, N=N, sw=sw, hord=hord):
+            return registry.make(name, D, N, L=2.0, dt=0.02, order=hord, **(sw[1](x) if sw else {}))
         x0 = sw[2] if sw else 0.0
         u = None
         results = []
